@@ -8,7 +8,7 @@ import vlib
 from vlib import Check
 from checks.exporter_common import run_histories, rng_for, generated_histories
 
-TS_INVS = ["C17_Exact", "C17_Inverse", "C17_Refuse", "C17_Order"]
+TS_INVS = ["C17_Exact", "C17_Inverse", "C17_Refuse", "C17_Order", "C17_NoUB"]
 
 
 def models(chk, tier):
@@ -23,6 +23,10 @@ def models(chk, tier):
                         constants={"WBits": 6, "MaxTps": 2, "MaxSecs": 4, "TsBug": '"negmin"'}, invariants=TS_INVS)
     res, verdict = vlib.model_check("MCTimestamp", cfg, workers=4, timeout=600)
     chk.add_model("MCTimestamp[TsBug=negmin] (self-test, must fail)", res, verdict, expect="violated")
+    cfg = vlib.make_cfg(work / "MCTimestamp_bug2.cfg", spec="MCSpec",
+                        constants={"WBits": 6, "MaxTps": 2, "MaxSecs": 4, "TsBug": '"addoverflow"'}, invariants=TS_INVS)
+    res, verdict = vlib.model_check("MCTimestamp", cfg, workers=4, timeout=600)
+    chk.add_model("MCTimestamp[TsBug=addoverflow] (pinned `ticks += offset`; self-test, must fail)", res, verdict, expect="violated")
     # earliest-time bookkeeping in the block model: all arrival orders of timed/untimed, storable/unstorable records
     cfg = vlib.make_cfg(work / "MCExporter.cfg", spec="MCSpec",
                         constants={"MaxOps": 4 if tier == "quick" else 5, "Sizes": "{3}", "Emit": "FALSE", "XBug": '"none"'},
